@@ -377,6 +377,8 @@ def capacity_proved(body, blk, call):
     base = body.provenance_u(call.args[0]) if call.args else None
     if base is None:
         return None
+    if base.startswith("message::FrameBatch::new") and not body.loops_containing(blk) and call.name in ("push", "insert"):
+        return "pushes onto a batch created empty in this function, outside any loop"
     lenrx = re.compile(r"message::FrameBatch::len\(%s\)" % re.escape(base))
     for g in body.guards(blk, select_aware=False):
         if g.atom[0] != "cmp" or g.truth is None:
